@@ -171,6 +171,12 @@ def call(self, e, want=None):
         z, _ = self.expr_top(args[1], 'real')
         self.tr.cur_notes.append('bessel_iv Result modelled as value')
         return f'(Except.ok (RealLike.bessIv {v} {z}) : Except (Err α) α)', ('except', 'real')
+    if len(p) == 2 and p[0] == 'DataOrSuffStat' and name in ('SuffStat', 'Data'):
+        s, t = self.expr_top(args[0])
+        if name == 'SuffStat':
+            xt = want[1] if isinstance(want, tuple) and want[0] == 'dos' else c.generic_map.get('X', 'unknown')
+            return f'(DataOrSuffStat.suffStat {s})', ('dos', xt, t, None)
+        return f'(DataOrSuffStat.data {s})', ('dos', t[1], (want[2] if isinstance(want, tuple) and want[0] == 'dos' else 'unknown'), None)
     if name == 'Some' and len(p) == 1:
         s, t = self.expr_top(args[0], want[1] if is_opt(want) else None)
         if is_opt(want) and want[1] in NUMERIC and t in NUMERIC:
@@ -190,6 +196,25 @@ def call(self, e, want=None):
         raise Unsupported('OnceLock::new in value position')
     if name == 'with_capacity' and p[0] == 'Vec':
         return '[]', ('list', want[1] if is_list(want) else 'unknown')
+    if len(p) == 3 and p[0] == 'Self':
+        at = self.tr.assoc_type(c.owner, p[1], c)
+        if is_struct(at):
+            p = [at[1], p[2]]
+    if len(p) == 2 and p[0] in c.generic_map and c.generic_map[p[0]] in NUMERIC and p[1] in ('zero', 'one', 'default') and not args:
+        g = c.generic_map[p[0]]
+        v = '1' if p[1] == 'one' else '0'
+        return {'real': f'({v}.0 : α)', 'nat': f'({v} : Nat)', 'int': f'({v} : Int)'}[g], g
+    if len(p) == 2 and p[0] in c.generic_map and c.generic_map[p[0]] in NUMERIC and p[1] == 'from' and len(args) == 1:
+        s, t = self.expr_top(args[0])
+        return self.convert(s, t, c.generic_map[p[0]])
+    if len(p) == 2 and p[0] in c.generic_map and c.generic_map[p[0]] in NUMERIC and p[1] == 'from_f64' and len(args) == 1:
+        s, t = self.expr_top(args[0], 'real')
+        s2, t2 = self.convert(s, t, c.generic_map[p[0]])
+        return f'(some {s2})', ('opt', t2)
+    if len(p) == 2 and p[0] in c.generic_map and p[1] == 'from_bool':
+        s, t = self.expr_top(args[0])
+        g = c.generic_map[p[0]]
+        return self.convert(s, t, g) if g != 'bool' else (s, 'bool')
     # Struct::method(args) / Self::method(args)
     if len(p) == 2:
         owner = c.owner if p[0] == 'Self' else p[0]
@@ -203,10 +228,17 @@ def call(self, e, want=None):
                 return f'({lean} {recv} {" ".join(xs)})'.replace(' )', ')'), rty
             xs = self.call_args(args, ptys)
             return (f'({lean} {" ".join(xs)})' if xs else f'({lean} (α := α))'), rty
+    # call of a closure-valued variable (only inside an inlined generic callee)
+    if len(p) == 1 and name in c.env and isinstance(c.env[name], tuple) and c.env[name][0] == 'closurev':
+        return self.apply_closurev(c.env[name], args)
     # free function (same crate)
     fname = name
-    if fname in self.tr.reg.free and (len(p) == 1 or p[0] in ('crate', 'misc', 'super', 'func') or p[-2] in ('misc', 'func', 'entropy', 'bessel')):
-        lean, ptys, rty = self.tr.request('', fname, c.kind)
+    if fname in self.tr.reg.free and (len(p) == 1 or p[0] in ('crate', 'misc', 'super', 'func') or p[-2] in ('misc', 'func', 'entropy', 'bessel', 'data')):
+        fi = self.tr.resolve_method('', fname, c.kind, ('file', c.fi.file) if c.fi else None)
+        if any(a[0] == 'closure' or (a[0] == 'path' and len(a[1]) == 2 and a[1][0] in self.tr.reg.structs)
+               or (a[0] == 'path' and len(a[1]) == 1 and isinstance(c.env.get(a[1][0]), tuple) and c.env[a[1][0]][0] == 'closurev') for a in args):
+            return self.inline_call(fi, args)
+        lean, ptys, rty = self.tr.request('', fname, c.kind, ('file', c.fi.file) if c.fi else None)
         xs = self.call_args(args, ptys)
         return (f'({lean} {" ".join(xs)})' if xs else f'({lean} (α := α))'), rty
     if len(p) == 1 and name in c.env:
@@ -257,6 +289,17 @@ def self_method(self, owner, recv_s, name, args, want):
             self.tr.cur_notes[:] = saved
             if t0 in NUMERIC or t0 == 'bool' or is_struct(t0) or is_list(t0):
                 hint = t0
+            if hint in NUMERIC or hint == 'bool':
+                fi0 = self.tr.resolve_method(owner, name, c.kind, None)
+                ok = False
+                if fi0 is not None:
+                    ps = [p for p in fi0.fn[2] if p[0] != 'self']
+                    if ps and ps[0][1]:
+                        pt = ps[0][1].replace('&', '').replace('mut ', '').strip()
+                        from core import generic_names
+                        ok = pt in ('X', '$kind', '$ kind') or pt in generic_names(fi0)
+                if not ok:
+                    hint = None
         except Unsupported:
             pass
     lean, ptys, rty = self.tr.request(owner, name, c.kind, hint)
@@ -267,6 +310,22 @@ def self_method(self, owner, recv_s, name, args, want):
 def mcall(self, e, want=None):
     c = self.c
     recv, name, args = e[1], e[2], e[3]
+    if name == 'contains' and len(args) == 1:
+        rr = recv
+        while rr[0] == 'paren':
+            rr = rr[1]
+        if rr[0] == 'range' and rr[1] is not None and rr[2] is not None:
+            x, tx = self.expr_top(args[0])
+            lo, tl = self.expr_top(rr[1], tx)
+            hi, th = self.expr_top(rr[2], tx)
+            if tx == 'real':
+                lo, _ = self.convert(lo, tl, 'real'); hi, _ = self.convert(hi, th, 'real')
+                up = f'(RealLike.le {x} {hi})' if rr[3] else f'(RealLike.lt {x} {hi})'
+                return f'((RealLike.le {lo} {x}) && {up})', 'bool'
+            if tx in ('nat', 'int'):
+                lo, _ = self.convert(lo, tl, tx); hi, _ = self.convert(hi, th, tx)
+                up = f'decide ({x} ≤ {hi})' if rr[3] else f'decide ({x} < {hi})'
+                return f'(decide ({lo} ≤ {x}) && {up})', 'bool'
     # cache getter used without deref
     if name == 'get_or_init':
         return self.expr_top(e, want)
@@ -312,14 +371,18 @@ def mcall(self, e, want=None):
         if name == 'clamp' and len(args) == 2:
             xs = [self.expr_top(a, 'real')[0] for a in args]
             return f'(RealLike.max {xs[0]} (RealLike.min {xs[1]} {r}))', 'real'
-        if name in ('clone', 'into', 'to_f64', 'borrow', 'to_owned') and not args:
+        if name in ('clone', 'into', 'borrow', 'to_owned') and not args:
             return r, 'real'
+        if name == 'to_f64' and not args:
+            return f'(some {r})', ('opt', 'real')
         if name == 'ln_gamma' and not args:
             return f'(RealLike.lgamma {r}, (1.0 : α))', ('tup', ('real', 'real'))
         if name in ('partial_cmp', 'total_cmp'):
             raise Unsupported('partial_cmp')
         raise Unsupported(f'method .{name} on real')
     if tr_ in ('nat', 'int'):
+        if name == 'into' and not args and want == 'real':
+            return self.convert(r, tr_, 'real')
         if name in ('clone', 'into') and not args:
             return r, tr_
         if name == 'pow' and len(args) == 1:
@@ -346,6 +409,12 @@ def mcall(self, e, want=None):
             return f'(if {r} == 1 then some true else if {r} == 0 then some false else none)', ('opt', 'bool')
         if name == 'is_finite' and not args:
             return 'true', 'bool'
+        if name == 'to_f64' and not args:
+            s_, _ = self.convert(r, tr_, 'real')
+            return f'(some {s_})', ('opt', 'real')
+        if name == 'to_usize' and not args:
+            s_, _ = self.convert(r, tr_, 'nat')
+            return f'(some {s_})', ('opt', 'nat')
         raise Unsupported(f'method .{name} on {tr_}')
     if tr_ == 'bool':
         if name in ('into_bool', 'clone', 'into'):
@@ -397,7 +466,8 @@ def mcall(self, e, want=None):
             if tr_[1] == 'real':
                 return f'(match {r} with | .ok v => v | .error _ => (RealLike.nan : α))', 'real'
             if is_struct(tr_[1]):
-                raise Unsupported('unwrap of Result<Struct>')
+                self.tr.cur_notes.append('expect/unwrap on Err modelled as the all-NaN default object (Rust panics)')
+                return f'(match {r} with | .ok v => v | .error _ => default)', tr_[1]
         if name == 'is_ok':
             return f'(match {r} with | .ok _ => true | .error _ => false)', 'bool'
         if name == 'is_err':
@@ -476,3 +546,67 @@ def iter_consumer(self, e, want):
 
 for _f in (call_args, closure, iter_expr, call, err_value, self_method, mcall, opt_unwrap, iter_consumer):
     setattr(FnTr, _f.__name__, _f)
+
+
+def inline_call(self, fi, args):
+    """generic free fn with closure parameters: inline its (translated) body at the call site"""
+    from emit import Ctx
+    from translate import FnTr as _FnTr
+    c = self.c
+    fn = fi.fn
+    if fn[4] is None:
+        raise Unsupported('parse: ' + str(fn[5]))
+    params = [p for p in fn[2] if p[0] != 'self']
+    if len(params) != len(args):
+        raise Unsupported('inline arity')
+    ictx = Ctx('', c.kind, fi)
+    ictx.mutself = False
+    binds = []
+    for (pat, ty), a in zip(params, args):
+        if pat[0] != 'pvar':
+            raise Unsupported('inline param pattern')
+        if a[0] == 'path' and len(a[1]) == 1 and isinstance(c.env.get(a[1][0]), tuple) and c.env[a[1][0]][0] == 'closurev':
+            ictx.env[pat[1]] = c.env[a[1][0]]
+        elif a[0] == 'closure' or (a[0] == 'path' and len(a[1]) == 2 and a[1][0] in self.tr.reg.structs):
+            ictx.env[pat[1]] = ('closurev', a, self)
+        else:
+            s, t = self.expr_top(a)
+            ictx.env[pat[1]] = t
+            binds.append((lname(pat[1]), s))
+            if isinstance(t, tuple) and t[0] == 'dos':
+                ictx.generic_map['X'] = t[1]
+                ictx.generic_map['Fx'] = ('struct', t[3]) if len(t) > 3 else None
+    sub = _FnTr(self.tr, ictx)
+    body = fn[4]
+    ictx.ret = None
+    term, t = sub.seq(list(body[1]), body[2], None, False)
+    for n, v in reversed(binds):
+        if n != v:
+            term = f'(let {n} := {v}; {term})'
+    return term, t
+
+
+def apply_closurev(self, cv, args):
+    _, clos, outer = cv
+    argstrs = [self.expr_top(a) for a in args]
+    if clos[0] == 'path':
+        # fn item such as GaussianSuffStat::new
+        if args:
+            raise Unsupported('fn-item closure with args')
+        return outer.expr(('call', clos, []))
+    params = clos[1]
+    if len(params) != len(argstrs):
+        raise Unsupported('closure arity')
+    saved = dict(outer.c.env)
+    try:
+        binders = [outer.bind_pattern(p, t) for p, (s, t) in zip(params, argstrs)]
+        body, bt = outer.block_value(clos[2]) if clos[2][0] == 'block' else outer.expr_top(clos[2])
+    finally:
+        outer.c.env = saved
+    for b, (s, t) in reversed(list(zip(binders, argstrs))):
+        body = f'(let {b} := {s}; {body})'
+    return body, bt
+
+
+FnTr.inline_call = inline_call
+FnTr.apply_closurev = apply_closurev
